@@ -89,6 +89,22 @@ def gen_ops(ctx):
                 elif c in "xy": ms.append("%s %d" % (c, r.range(-w - 2, w + 2)))
                 else: ms.append(c)
             ops.append("mv %s %d %d %s" % (vw, x0, y0, " ".join(ms)))
+    # --- pli: raw planar x-iterators with all three planes (operator[], + , - , comparisons); U and B keep the iterator type
+    for kind in ("pl8", "pl16"):
+        g = KINDS[kind][1]
+        for (W, H) in shapes:
+            if W == 0 or H == 0 or W * H > (64 if th else 20): continue
+            for xf in ("-", "U", "B"):
+                if xf == "B":
+                    x0, y0 = r.range(0, W - 1), r.range(0, H - 1); bw, bh = r.range(1, W - x0), r.range(1, H - y0)
+                    xfs, w, h = "B%d,%d,%d,%d" % (x0, y0, bw, bh), bw, bh
+                    if r.chance(1, 2): xfs += "/U"
+                else: xfs, w, h = xf, W, H
+                vw = "%s %d %d %d 0 %s" % (kind, W, H, r.choice([0, 1, 2, 5]) * g, xfs)
+                for y in sorted({0, h - 1}):
+                    for i in sorted({0, w, r.range(0, w)}):
+                        for d in sorted({-i, w - i, 0, 1, -1, r.range(-i, w - i)}):
+                            if 0 <= i + d <= w: ops.append("pli %s %d %d %d" % (vw, y, i, d))
     # --- large views: random multi-row jumps of the 1-D iterator (and a locator move) far from the origin
     BIG = {"v": (1000, 1000), "g8": (700, 700), "rgb8": (400, 400), "pl16": (200, 200), "b1": (1000, 1000), "b6": (300, 300)}
     for kind, (W, H) in BIG.items():
@@ -138,7 +154,9 @@ def nontrivial(op):
 
 ASSUME = [
     "ptrdiff_t arithmetic does not overflow (coordinates, steps and offsets are unbounded Int in the model)",
-    "comparison operators of non-step x-iterators (pointers, planar, bit iterators) are observed to agree with the sign-keyed step_iterator operators on valid ranges (not proven: C++ overload selection)",
+    "which comparison operators a non-step x-iterator uses (built-in for pointers, planar_pixel_iterator's own operator< plus iterator_facade's > <= >=, "
+    "iterator_facade's for bit iterators) is C++ overload selection: hand-modelled in itCmp (C03_x_order proves the laws for that model), observed; "
+    "Boost iterator_facade's relational operators (0 > -distance_to etc.) are not a GIL header and are hand-modelled (facadeCmp)",
     "iterator positions outside [begin, end] are outside the iterators' contract: compared model vs implementation but not judged",
 ]
 
@@ -170,6 +188,7 @@ def run(ctx, ops=None):
         rule="op lines over 15 view kinds (interleaved 1/3/4/6/12-byte pixels, packed 565, planar 8/16, virtual, bit-aligned 1/2/3/4/6/12 bits) x every shape "
              "w,h in 0..N x row padding x random compositions of flip/rotate/transpose/subimage/subsample: nav = 10 navigation paths for every pixel, "
              "ra = 1-D iterator laws for every start and every in-range offset (+1 outside on each side), st = x/y iterator laws, mv = locator move programs, "
+             "pli = raw planar x-iterators with all three planes (operator[], it+d, difference, six comparisons), "
              "bit/bitit = bit iterator carry at every bit offset, up to and beyond +-2^31 bits; non-trivial = non-empty source (nav: more than one pixel; bit: n != 0)",
         samples=samples, distinct_nontrivial=distinct, assumptions=ASSUME, trusted_base=vlib.TRUSTED_BASE,
         extra={"input_distribution": ctx.cov.get("input_distribution", {}), "view_kinds": sorted(KINDS)})
